@@ -118,10 +118,13 @@ Why(r) ==
   ELSE IF PrimaryOnly(r.ep) /\ role # "primary" THEN "not-primary"
   ELSE IF r.ep = "handoff" /\ r.pc = "unknown" THEN "node-not-connected"
   ELSE IF r.ep = "promote" /\ role = "noprimary" THEN "no-primary-known"
+  \* a forwarded transaction needs the halt lock it names to be granted (holder check, repaired);
+  \* every /tx request of this table names lock id "a"
+  ELSE IF r.ep = "tx" /\ dbs[NameOf(r)].halt # "a" THEN "halt-lock-not-held"
   ELSE "ok"
 
 ClassOf(w) == CASE w = "ok" -> "valid"
-                [] w \in {"db-not-found", "node-not-connected", "no-primary-known"} -> "prereq"
+                [] w \in {"db-not-found", "node-not-connected", "no-primary-known", "halt-lock-not-held"} -> "prereq"
                 [] w = "not-primary" -> "role"
                 [] OTHER -> "malformed"
 
